@@ -247,6 +247,15 @@ static void alloc_case(::verif::Case& c) {
         Built b; Probe* k = emit_new(out, LAWS[li], TYPES[li], disp, pct, Dy{16, 16}, Dy{24, 16}, s2, h2, b);
         delete k; stats.add("out_of_domain_params"); return;
     }
+    // dispersal percentage exactly at an end of its range (0 or 1) or outside it: the quantile is not finite
+    // there, icdf() rejects it with invalid_argument and so must the kernel constructor - a window size computed
+    // from an infinite distance is a float-to-int conversion out of range followed by a signed overflow
+    if (rng.coin(3)) {
+        Dy p2 = rng.pick(std::vector<Dy>{Dy{0, 1}, Dy{1, 1}, Dy{1, 1}, Dy{5, 4}, Dy{-1, 4}});
+        Built b; Probe* k = emit_new(out, LAWS[li], TYPES[li], disp, p2, Dy{16, 16}, Dy{24, 16}, scale, shape, b);
+        if (k) { disp(1, 1) = 3; if (k->nr() >= 1 && k->nc() >= 1 && k->nr() * k->nc() < 4096) emit_call(out, *k, 1, 1, 3); delete k; }
+        stats.add("percentage_at_or_beyond_range_end"); return;
+    }
     Dy ns{16, 16}, ew{16, 16};
     choose_resolutions(rng, li, scale, shape, pct, ns, ew);
     if (ns.num != ew.num) stats.add("ns_ne_ew");
@@ -387,6 +396,16 @@ static void quantile_case(::verif::Case& c) {
     if (li == 8) for (int t = 0; t < 4; t++) {
         double x = rng.in(1, 640) / 32.0;
         out << "det.gcdf " << scale.s() << " " << shape.s() << " " << bits(x) << " => " << bits(GammaKernel(scale.v(), shape.v()).cdf(x)) << "\n";
+    }
+    // the deterministic kernel built with the percentage exactly at an end of its range (0, 1): the quantile is not
+    // finite there; icdf() rejects it and so must the constructor (a window computed from an infinite distance is an
+    // out-of-range float-to-int conversion followed by a signed overflow)
+    {
+        IR disp0(5, 5, 0);
+        for (Dy p2 : {Dy{0, 1}, Dy{1, 1}}) {
+            Built b; Probe* k = emit_new(out, LAWS[li], TYPES[li], disp0, p2, Dy{16, 16}, Dy{24, 16}, scale, shape, b);
+            delete k; stats.add("kernel_built_with_percentage_at_range_end");
+        }
     }
     // constructor validation: every parameter valid / 0 / negative, one at a time and both
     {
